@@ -1,5 +1,5 @@
 """C17 - parallel / push / spilling execution (two clauses; DESIGN §5 C17)."""
-from .facts import short_id, CheckerError
+from .facts import short_id, CheckerError, must_pass
 from .flow import FlowCx, callee_name
 from . import common
 from . import c16
@@ -111,6 +111,9 @@ def run(ctx):
                   "reverses (%s vs %s): runs are not ordered the way the merge expects, so a spilled sort returns rows in a "
                   "different order than the in-memory sort" % (sorted(sigs[0][0]), sorted(sigs[1][0])), where=sibs[1].loc())
 
+    # ---- R4 elements pulled from a resumable iterator are consumed before a return
+    resumable_items_consumed(ctx, P, "R4")
+
     # ---- R2 = C16-R4 (spill codec)
     sub = type("Sub", (), {})()
     obs_before = len(ctx.obs)
@@ -135,3 +138,76 @@ def run(ctx):
         def note(self, s):
             pass
     c16.run(Shim(ctx))
+
+
+def resumable_items_consumed(ctx, P, rule):
+    """An operator that produces its output in several calls keeps an iterator in a field and pulls from it with
+    `for x in it.by_ref()`. An element that has been pulled is gone from the iterator: every path from the pull to a
+    return must have used the element (handed it, or a part of it, to a call). A `return` between the pull and the use -
+    a capacity check moved to the top of the loop body - silently drops one element per output chunk."""
+    n = 0
+    for f in sorted(P.fns.values(), key=lambda f: f.id):
+        if not (f.id.startswith(("grafeo_core::execution::", "<grafeo_core::execution::"))) or "::tests::" in f.id or f.kind == "closure":
+            continue
+        fx = None
+        for bi, t in f.calls():
+            cn = callee_name(t)
+            if not (cn.endswith("::next") and cn.startswith("<&mut ")) or not t["args"]:
+                continue          # `for x in it.by_ref()` pulls through `<&mut I as Iterator>::next`
+            fx = fx or FlowCx(P, f)
+            rt = fx.tags(t["args"][0])
+            if not ("call:Iterator::by_ref" in rt and any(x.startswith("cell:") for x in rt)):
+                continue          # not a resumable iterator kept in a field
+            n += 1
+            item = t["dst"][0]
+            derived = {item}
+            changed = True
+            while changed:
+                changed = False
+                for b in f.blocks:
+                    if b["cl"]:
+                        continue
+                    for st in b["s"]:
+                        pl, rv, ln = st
+                        src = None
+                        if rv[0] == "use" and rv[1][0] in ("m", "c"):
+                            src = rv[1][1]
+                        elif rv[0] == "ref":
+                            src = rv[2]
+                        if src and src[0] in derived and pl[0] not in derived:
+                            derived.add(pl[0])
+                            changed = True
+            consume = set()
+            for b2, t2 in f.calls():
+                if b2 == bi:
+                    continue
+                if any(a[0] in ("m", "c") and a[1] and a[1][0] in derived for a in t2["args"]):
+                    consume.add(b2)
+            # blocks entered with the element in hand
+            some = [b for b in range(len(f.blocks)) if not f.blocks[b]["cl"] and
+                    any(x[0] == "variant" and x[1] == "core::option::Option" and x[2] == "Some" and x[4] in _switch_blocks_after(f, bi)
+                        for x in fx.facts_at(b))]
+            entries = [b for b in some if any(p not in some for p in f.pred()[b])]
+            ok = bool(entries) and bool(consume) and all(must_pass(f, b, consume, set(f.exits())) for b in entries)
+            ctx.ob(rule, "%s#pulled-element-consumed" % short_id(f.id), ok,
+                   what="%s can return after pulling an element from the iterator it keeps across calls and before using it: that "
+                        "element is never emitted (one group / row lost per output chunk), so the result depends on the chunk capacity "
+                        "and differs from the other execution strategies" % short_id(f.id), where=f.loc(t["line"]))
+    ctx.floor(rule, n, 1, "pulls from resumable iterators kept in operator fields")
+
+
+def _switch_blocks_after(f, call_block):
+    """switch blocks that test the result of the call ending call_block (the block the call returns to, and its successors
+    up to the first switch)"""
+    out = set()
+    b = f.blocks[call_block]["t"].get("t")
+    seen = set()
+    while b is not None and b not in seen:
+        seen.add(b)
+        t = f.blocks[b]["t"]
+        if t["k"] == "sw":
+            out.add(b)
+            break
+        nxt = f.succ()[b]
+        b = nxt[0] if len(nxt) == 1 else None
+    return out
